@@ -40,6 +40,13 @@ def scenarios(tier):
                  max_states=200000 if q else 3000000,
                  note="legal spellings of the firmware cycle (bare, trailing decimal point, value-less S, TAB) next to "
                       "G10 commands that are not retractions (P/L word first)"),
+        Scenario("c05-regions-later", World, dict(prop="C05", monitors=mon, regions=[], maxregions=1, emax=1),
+                 [("TRAVEL", "O2"), ("TRAVEL", "I1"), ("PRINT", "O1"), ("RETRACT",), ("RECOVER",), ("ADD", "R", "r")],
+                 max_states=200000 if q else 3000000,
+                 note="the print starts without regions; the first region is added at any point of a retract/recover cycle"),
+        Scenario("c05-regions-later-fw", World, dict(prop="C05", monitors=mon, regions=[], maxregions=1, emax=1),
+                 [("TRAVEL", "O2"), ("TRAVEL", "I1"), ("PRINT", "O1"), ("FWRETRACT",), ("FWRECOVER",), ("ADD", "R", "r")],
+                 max_states=200000 if q else 3000000, note="the same with firmware cycles (G10/G11)"),
         Scenario("c05-firmware", World, dict(prop="C05", monitors=mon, regions=["R"], emax=1 if q else 2),
                  MOVES + [("FWRETRACT",), ("FWRECOVER",)], max_states=200000 if q else 3000000),
     ]
